@@ -78,14 +78,14 @@ theorem compute_accuracy_unequal (tp nr ne : List Int) (h : ¬ (tp.length = nr.l
   unfold Mir.Gen.multipitch.compute_accuracy
   simp only [PyMP.vadd, PyMP.vsub]
   by_cases h2 : ne.length = nr.length
-  · rw [PyMP.bcast_eq_len _ h2]
-    simp only [ok_bind]
+  · -- the sum is fine (in either operand order), the difference with `true_positives` is not
+    simp only [PyMP.bcast_eq_len _ h2, PyMP.bcast_eq_len _ h2.symm, ok_bind]
     rw [PyMP.bcast_error]
     · rfl
     · simp only [List.length_zipWith, h2, Nat.min_self]; intro h3; exact h ⟨h3.symm, h2.symm⟩
     · simp only [List.length_zipWith, h2, Nat.min_self]; exact hr
     · exact ht
-  · rw [PyMP.bcast_error _ h2 he hr]
+  · simp only [PyMP.bcast_error _ h2 he hr, PyMP.bcast_error _ (Ne.symm h2) hr he]
     rfl
 
 /-! ### `compute_err_score` -/
@@ -95,7 +95,7 @@ theorem compute_err_score_empty_reference (tp nr ne : List Int) (h : nr.sum = 0)
     Mir.Gen.multipitch.compute_err_score tp nr ne = .ok (.val 0, .val 0, .val 0, .val 0) := by
   unfold Mir.Gen.multipitch.compute_err_score
   simp only [PyMP.vsum, h, Int.cast_zero, decide_true, if_true]
-  rfl
+  try rfl
 
 /-- on the three columns of any list of rows the translated `compute_err_score` is the hand model -/
 theorem compute_err_score_rows (rows : List Row) :
@@ -107,7 +107,7 @@ theorem compute_err_score_rows (rows : List Row) :
   · have hq : ((((rows.map fun x => x.2.1).sum : Int)) : Rat) ≠ 0 := by exact_mod_cast h0
     rw [PyMP.computeErrScore_of_ne rows h0]
     unfold Mir.Gen.multipitch.compute_err_score num4
-    simp only [PyMP.vsum, sumBy, decide_eq_true_eq, if_neg hq, PyMP.vsub, PyMP.stackMin_eq_len, PyMP.stackMax_eq_len,
+    simp only [PyMP.vsum, sumBy, decide_eq_true_eq, if_neg hq, if_neg (Ne.symm hq), PyMP.vsub, PyMP.stackMin_eq_len, PyMP.stackMax_eq_len,
       PyMP.bcast_eq_len, List.length_map, List.length_zipWith, Nat.min_self, PyMP.zipWith_cols, PyMP.maskFill_cols,
       ok_bind, divNp_eq, npDiv_of_ne hq, ofInt]
     first
@@ -127,9 +127,12 @@ theorem compute_err_score_ragged (tp nr ne : List Int) (h : nr.sum ≠ 0) (hl : 
     Mir.Gen.multipitch.compute_err_score tp nr ne = .error .valueError := by
   unfold Mir.Gen.multipitch.compute_err_score
   have hq : ((nr.sum : Int) : Rat) ≠ 0 := by exact_mod_cast h
-  simp only [PyMP.vsum, decide_eq_true_eq, if_neg hq, PyMP.stackMin_error hl, PyMP.stackMax_error hl,
-    PyMP.stackMin_error (Ne.symm hl), PyMP.stackMax_error (Ne.symm hl)]
-  rfl
+  -- whatever the order of the statements: the two differences either raise ValueError or yield arrays, the stacks raise
+  rcases PyMP.bcast_cases (· - ·) nr ne with e1 | ⟨c1, e1⟩ <;>
+  rcases PyMP.bcast_cases (· - ·) ne nr with e2 | ⟨c2, e2⟩ <;>
+  · simp only [PyMP.vsum, PyMP.vsub, decide_eq_true_eq, if_neg hq, if_neg (Ne.symm hq), e1, e2, PyMP.stackMin_error hl,
+      PyMP.stackMax_error hl, PyMP.stackMin_error (Ne.symm hl), PyMP.stackMax_error (Ne.symm hl)]
+    rfl
 
 /-! ### `compute_num_true_positives` -/
 
